@@ -356,6 +356,39 @@ theorem parseG_error_delivered {T : Tables} {inp : Array Nat} {wb : Bool} {fuel 
     · rw [hstk e he] at hsym; cases hsym
     · exact hd
 
+/-- **error_tracked.** If `parse` accepts after at least one successful recovery then, in the
+accepting state, the injected `Error` is still the lookahead, or sits on the stack, or was
+delivered to an action. -/
+theorem parseG_ErrTrack {T : Tables} {inp : Array Nat} {wb : Bool} {fuel : Nat}
+    (hacc : (parseG T inp wb fuel).1 = .accept) (hrec : 0 < (parseG T inp wb fuel).2.2) :
+    ErrTrack (parseG T inp wb fuel).2.1 := by
+  unfold parseG at hacc hrec ⊢
+  cases h : readToken T inp initState with
+  | error w => simp only [h] at hacc; cases hacc
+  | ok s1 =>
+    simp only [h] at hacc hrec ⊢
+    exact runLoopG_ErrTrack fuel s1 hacc (.inr hrec)
+
+mutual
+theorem leaves_no_err : ∀ (v : Val), errsIn (fun _ => false) v = true →
+    ∀ x ∈ leaves v, x.isErr = false
+  | .nil, _, x, hx => by cases hx
+  | .tok _ _, _, x, hx => by rw [leaves, List.mem_singleton] at hx; rw [hx]; rfl
+  | .err _ _ _, h, _, _ => by simp [errsIn] at h
+  | .node _ kids, h, x, hx => by
+    rw [errsIn] at h; rw [leaves] at hx
+    exact leavesL_no_err kids h x hx
+theorem leavesL_no_err : ∀ (l : List Val), errsInL (fun _ => false) l = true →
+    ∀ x ∈ leavesL l, x.isErr = false
+  | [], _, x, hx => by cases hx
+  | v :: vs, h, x, hx => by
+    simp only [errsInL, Bool.and_eq_true] at h
+    rw [leavesL] at hx
+    rcases List.mem_append.mp hx with hx | hx
+    · exact leaves_no_err v h.1 x hx
+    · exact leavesL_no_err vs h.2 x hx
+end
+
 /-! ## The queued lookahead is a real token when the lexer delivers no ERROR token -/
 
 theorem readToken_noErr {T : Tables} {inp : Array Nat} {s s1 : PState}
